@@ -520,6 +520,8 @@ def make_jobs(ctx, tmp):
         jobs.append({"name": "generated:" + ini, "ini": os.path.join(base, ini), "overrides": ov,
                      "seed": rng.randrange(2 ** 31), "max_updates": ctx.n(800, 5000)})
     for k, j in enumerate(jobs):
+        if k % 3 == 1:
+            j["prime_counters"] = 2 ** 32 - 40 - (k * 97) % 600
         j["tmp"] = tmp
         j["out"] = os.path.join(tmp, "out%d.json" % k)
         j["job_file"] = os.path.join(tmp, "job%d.json" % k)
